@@ -115,6 +115,7 @@ pub fn sr_view(p: &SenderReport, data: &[u8], pfx: &str) -> Rec {
     r.put("octets", || j32(p.octet_count()));
     r.put("n_reports", || json!(p.n_reports()));
     blocks(&mut r, || Box::new(p.report_blocks()), step_cap(data.len()));
+    r.put("blocks_alt", || alt_iter(|| p.report_blocks(), step_cap(data.len()), |rb| j32(rb.ssrc())));
     r
 }
 
@@ -126,6 +127,7 @@ pub fn rr_view(p: &ReceiverReport, data: &[u8], pfx: &str) -> Rec {
     r.put("ssrc", || j32(p.ssrc()));
     r.put("n_reports", || json!(p.n_reports()));
     blocks(&mut r, || Box::new(p.report_blocks()), step_cap(data.len()));
+    r.put("blocks_alt", || alt_iter(|| p.report_blocks(), step_cap(data.len()), |rb| j32(rb.ssrc())));
     r
 }
 
@@ -143,6 +145,7 @@ pub fn bye_view(p: &Bye, data: &[u8], pfx: &str) -> Rec {
     if hang {
         r.panics.push(format!("{pfx}ssrcs: HANG (step cap exceeded)"));
     }
+    r.put("ssrcs_alt", || alt_iter(|| p.ssrcs(), step_cap(data.len()), j32));
     r.put("reason", || match p.reason() {
         None => json!({"some": 0, "o": 0, "n": 0}),
         Some(s) => {
@@ -220,6 +223,7 @@ pub fn sdes_view(p: &Sdes, data: &[u8], pfx: &str) -> Rec {
                 Value::Array(items)
             });
             c.panics.extend(ip);
+            c.put("items_alt", || alt_iter(|| ch.items(), cap, |it| json!([it.type_(), sl(data, it.value())["o"]])));
             let (v, pp) = c.done();
             sub_panics.extend(pp);
             v
@@ -230,6 +234,7 @@ pub fn sdes_view(p: &Sdes, data: &[u8], pfx: &str) -> Rec {
         Value::Array(chunks)
     });
     r.panics.extend(sub_panics);
+    r.put("chunks_alt", || alt_iter(|| p.chunks(), cap, |ch| j32(ch.ssrc())));
     r
 }
 
@@ -249,6 +254,7 @@ pub fn nack_res(res: Result<Nack, RtcpParseError>, cap: usize, pfx: &str, panics
             if hang {
                 r.panics.push(format!("{pfx}entries: HANG (step cap exceeded)"));
             }
+            r.put("entries_alt", || alt_iter(|| n.entries(), cap, |x| json!(x)));
             let (v, p) = r.done();
             panics.extend(p);
             v
@@ -270,6 +276,7 @@ pub fn fir_res(res: Result<Fir, RtcpParseError>, cap: usize, pfx: &str, panics: 
             if hang {
                 r.panics.push(format!("{pfx}entries: HANG (step cap exceeded)"));
             }
+            r.put("entries_alt", || alt_iter(|| n.entries(), cap, |x| json!([j32(x.ssrc()), x.sequence()])));
             let (v, p) = r.done();
             panics.extend(p);
             v
@@ -291,6 +298,7 @@ pub fn sli_res(res: Result<Sli, RtcpParseError>, cap: usize, pfx: &str, panics: 
             if hang {
                 r.panics.push(format!("{pfx}entries: HANG (step cap exceeded)"));
             }
+            r.put("entries_alt", || alt_iter(|| n.lost_macroblocks(), cap, |x| json!(ints_in(&format!("{x:?}")))));
             let (v, p) = r.done();
             panics.extend(p);
             v
@@ -360,13 +368,17 @@ pub fn pfb_view(p: &PayloadFeedback, data: &[u8], pfx: &str) -> Rec {
 }
 
 // ---------------------------------------------------------------- typed parse results
-fn wrap<T>(res: Result<T, RtcpParseError>, view: impl FnOnce(&T) -> Rec, panics: &mut Vec<String>) -> Value {
+fn wrap<T>(res: Result<T, RtcpParseError>, view: impl Fn(&T) -> Rec, panics: &mut Vec<String>) -> Value {
     match res {
         Err(e) => perr(&e),
         Ok(v) => {
-            let (view, p) = view(&v).done();
+            let (mut view_, p) = view(&v).done();
             panics.extend(p);
-            json!({"t": "ok", "view": view})
+            // every accessor once more on the same value: a view must not depend on having been read before
+            let (again, _) = view(&v).done();
+            let same = again == view_;
+            view_["again"] = json!(same);
+            json!({"t": "ok", "view": view_})
         }
     }
 }
@@ -403,7 +415,7 @@ pub const TYPED: [&str; 7] = ["sr", "rr", "sdes", "bye", "app", "tfb", "pfb"];
 
 fn conv_res<'a, T>(
     res: Result<T, RtcpParseError>,
-    view: impl FnOnce(&T) -> Rec,
+    view: impl Fn(&T) -> Rec,
     panics: &mut Vec<String>,
 ) -> Value {
     wrap(res, view, panics)
@@ -488,7 +500,7 @@ pub fn packet_view(p: &Packet, data: &[u8], pfx: &str) -> Rec {
     let h = hdr(p, pfx);
     r.sub("phdr", h);
     let ipfx = format!("{pfx}inner.");
-    let inner = match p {
+    let mk_inner = || match p {
         Packet::App(x) => app_view(x, data, &ipfx),
         Packet::Bye(x) => bye_view(x, data, &ipfx),
         Packet::Rr(x) => rr_view(x, data, &ipfx),
@@ -498,6 +510,9 @@ pub fn packet_view(p: &Packet, data: &[u8], pfx: &str) -> Rec {
         Packet::PayloadFeedback(x) => pfb_view(x, data, &ipfx),
         Packet::Unknown(x) => unknown_view(x, data, &ipfx),
     };
+    let mut inner = mk_inner();
+    let same = mk_inner().m == inner.m;
+    inner.set("again", json!(same));
     r.sub("inner", inner);
     // conversions by reference (try_as / TryFrom<&Packet>)
     let mut row = Rec::new(&format!("{pfx}conv."));
